@@ -46,8 +46,9 @@ TOpen == /\ Ev.e = "open"
          /\ (IF \E k \in DOMAIN st : st[k].tainted /\ ~st[k].closed THEN Flag("P09-new-connection-before-failed-one-closed") ELSE TRUE)
          /\ (IF \E k \in DOMAIN st : Healthy(st[k]) THEN Flag("P09-reconnect-although-connection-healthy") ELSE TRUE)
          /\ (IF healthyClosed THEN Flag("P09-healthy-connection-dropped") ELSE TRUE)
-         \* C10: a reply that arrived within the per-packet timeout must have been received - no reconnect in such a scenario
-         /\ (IF cfg.tag = "ontime" THEN Flag("P10-timeout-fired-early") ELSE TRUE)
+         \* I-spec only (model drift, not a property): with the shipped constant of 60 s a reply after 59 s is still received.
+         \* The property demands a finite bound, not this value - so a different constant is reported as drift.
+         /\ (IF cfg.tag = "ontime" THEN Flag("D10-per-packet-timeout-is-not-60s") ELSE TRUE)
          /\ st' = Set(Ev.conn, NoConn) /\ healthyClosed' = FALSE
          /\ UNCHANGED <<cfg, sc, incall>>
 
